@@ -1,6 +1,7 @@
 import Driver.Common
 import OidcModel.Spec.C19
 import OidcModel.Spec.C19Options
+import OidcModel.Spec.C19Honour
 open Kv Drv
 
 /-
@@ -11,6 +12,8 @@ open Kv Drv
     kind=discover   client.Discover against a served document
     kind=visit      one discovery request of a SEQUENCE of requests from several hosts to one provider (`prov`, `step`), followed by
                     token issuance through the same host: the document served and the `iss` of the tokens
+    kind=honour     one authorization-code flow (authorize -> login -> callback -> token) whose parameters travel in the query and / or inside a
+                    signed request object, against what the same provider advertises (Spec/C19Honour.lean)
 -/
 namespace Drv.C19
 open _root_.C19 Disco
@@ -104,6 +107,25 @@ def parseVisitObs (l : Line) : VisitObs :=
   { status := nat l "d.status", doc := parseDoc l,
     tokenIssuers := tokenKinds.filterMap fun k => (opt l ("tok." ++ k)).map fun iss => (k, iss) }
 
+/-! #### kind=honour -/
+
+def parseHonParams (l : Line) (p : String) : HonParams :=
+  { scopes := list l (p ++ "scope"), redirectURI := str l (p ++ "redirect_uri"), state := str l (p ++ "state"), nonce := str l (p ++ "nonce"),
+    responseMode := str l (p ++ "response_mode"), display := str l (p ++ "display"), prompt := list l (p ++ "prompt"),
+    maxAge := if has l (p ++ "max_age") then some (nat l (p ++ "max_age")) else none,
+    uiLocales := list l (p ++ "ui_locales"), idTokenHint := str l (p ++ "id_token_hint"), loginHint := str l (p ++ "login_hint"),
+    acrValues := list l (p ++ "acr_values"), codeChallenge := str l (p ++ "cc"), codeChallengeMethod := str l (p ++ "ccm") }
+
+def parseHonRequest (l : Line) : HonRequest :=
+  { query := parseHonParams l "q.", object := if bool l "hasobj" then some (parseHonParams l "o.") else none,
+    queryChallengeIs := str l "q.ccis", objectChallengeIs := str l "o.ccis" }
+
+def parseHonObs (l : Line) : HonObs :=
+  { authorize := str l "az", stored := parseHonParams l "s.", token := (list l "tk.k").zip ((list l "tk.v").map String.toNat!) }
+
+def honObserved (l : Line) : String :=
+  s!"az={esc (str l "az")};tok={String.intercalate "/" ((list l "tk.v"))}"
+
 def docSummary (d : DiscoveryConfiguration) : String :=
   let n := (Field.all.filter (fun f => f.advertised d != "")).length
   s!"ep{n}gr{d.GrantTypesSupported.length}pk{d.CodeChallengeMethodsSupported.length}ro{if d.RequestParameterSupported then 1 else 0}"
@@ -120,6 +142,8 @@ def classOf (l : Line) : String :=
     s!"options:{str l "router"}:{str l "ctor"}:n{nat l "on"}:{if bool l "acc" then "accepted" else "refused:" ++ str l "o.err"}"
   | "visit" =>
     s!"visit:{str l "router"}:{str l "is.kind"}{if has l "is.hdrs" then "+custom" else ""}:hosts-per-provider-{nat l "nhosts"}:discovery-order-{str l "oclass"}:tokens-{str l "tokvia"}"
+  | "honour" =>
+    s!"honour:{str l "router"}:{str l "client"}:ro-{if bool l "hasobj" then (if bool l "d.reqobj" then "advertised" else "not-advertised") else "none"}:pkce-{str l "pk"}:{if (list l "d.pkce").isEmpty then "s256-not-advertised" else "s256-advertised"}"
   | "issuer" => s!"issuer:{if bool l "acc" then "accepted" else "rejected:" ++ str l "o.err"}"
   | "dynissuer" => s!"dynissuer:{str l "strategy"}:{if bool l "acc" then "accepted" else "rejected:" ++ str l "o.err"}"
   | "discover" => s!"discover:{if bool l "acc" then "accepted" else "rejected:" ++ str l "o.err"}"
@@ -130,6 +154,7 @@ def observedOf (l : Line) : String :=
   | "config" => if str l "obs" == "panic" then "panic" else docSummary (parseDoc l)
   | "options" => if str l "obs" == "panic" then "panic" else if bool l "acc" then docSummary (parseDoc l) else "err:" ++ str l "o.err"
   | "visit" => if str l "obs" == "panic" then "panic" else s!"iss={esc (parseDoc l).Issuer};{docSummary (parseDoc l)}"
+  | "honour" => if str l "obs" == "panic" then "panic" else honObserved l
   | _ => if str l "obs" == "panic" then "panic" else if bool l "acc" then "ok" else "err:" ++ str l "o.err"
 
 def monitorLine (l : Line) : Option String :=
@@ -138,6 +163,8 @@ def monitorLine (l : Line) : Option String :=
   | "config" => monitor (parseConfig l) (parseObs l)
   | "visit" => monitorVisit (parseConfig l) (parseVisit l) (parseVisitObs l)
   | "options" => monitorOptions (parseOracleP l "is.arg" "ip.") (str l "is.arg") {} {} (optionsLegacy l) (parseOptionSpecs l) (bool l "acc") (parseObs l)
+  | "honour" => if nat l "d.status" != 200 then some "discovery-unavailable" else
+      monitorHonour (bool l "d.reqobj") (list l "d.pkce") (parseHonRequest l) (parseHonObs l)
   | "issuer" => monitorIssuer (parseOracle l "s") (str l "s") (bool l "insecure") (bool l "acc")
   | "dynissuer" => monitorDynamicIssuer (parseOracle l "path") (str l "path") (bool l "insecure") (bool l "acc") (opt l "o.iss")
   | "discover" => monitorDiscover (str l "asked") (str l "served") (if bool l "acc" then some (str l "o.iss") else none)
